@@ -2,19 +2,64 @@
 From Coq Require Import List NArith Arith Bool Lia.
 From K.Gen Require Import C38_consts.
 From K.Model Require Import C38.
-From K.Proof Require Import C38_engine C38_segs C38_tac.
+From K.Proof Require Import C38_engine C38_segs C38_tac C38_shapes.
 Import ListNotations.
 Local Open Scope N_scope.
 
-Ltac none_rev := apply exec_none;
+Ltac none_rev lem := apply exec_none;
   let t1 := fresh "t1" in let t2 := fresh "t2" in let c' := fresh "c'" in
   let Hp := fresh "Hp" in let HD := fresh "HD" in
-  intros t1 t2 c' Hp HD; dD HD; subst; facts; to_segs Hp; rev_inj Hp; finish2.
+  intros t1 t2 c' Hp HD; apply lem in HD; dS HD; subst; facts; to_segs Hp; rev_inj Hp; finish2.
 
 Definition has_tag k := match k with KTagCurrent _ _ | KTagIndex _ _ _ => true | _ => false end.
 Lemma tag_none k : pk_ok k = true -> has_tag k = false -> exec ast_get_manifest_tag (build k) = None.
 Proof.
   destruct k; cbn [pk_ok has_tag]; intros Hk Hx; try discriminate Hx; facts.
   all: try (destruct data).
-  all: none_rev.
+  all: none_rev shape_tag.
+Qed.
+
+Definition is_blob k := match k with KBlob _ => true | _ => false end.
+Lemma blob_none k : pk_ok k = true -> is_blob k = false -> exec ast_get_blob_digest (build k) = None.
+Proof.
+  destruct k; cbn [pk_ok is_blob]; intros Hk Hx; try discriminate Hx; facts.
+  all: try (destruct data).
+  all: none_rev shape_blob_digest.
+Qed.
+
+Definition is_layer k := match k with KLayer _ _ _ => true | _ => false end.
+Lemma layer_none k : pk_ok k = true -> is_layer k = false -> exec ast_get_layer_digest (build k) = None.
+Proof.
+  destruct k; cbn [pk_ok is_layer]; intros Hk Hx; try discriminate Hx; facts.
+  all: none_rev shape_layer_digest.
+Qed.
+
+Definition has_mdigest k := match k with KRevision _ _ | KTagIndex _ _ _ => true | _ => false end.
+Lemma mdigest_none k : pk_ok k = true -> has_mdigest k = false -> exec ast_get_manifest_digest (build k) = None.
+Proof.
+  destruct k; cbn [pk_ok has_mdigest]; intros Hk Hx; try discriminate Hx; facts.
+  all: try (destruct data).
+  all: none_rev shape_mdigest.
+Qed.
+
+Definition is_upload k := match k with KUploadData _ _ | KUploadStartedAt _ _ | KUploadHashStates _ _ _ | KUploadHashState _ _ _ _ => true | _ => false end.
+Lemma uuid_none k : pk_ok k = true -> is_upload k = false -> exec ast_get_upload_uuid (build k) = None.
+Proof.
+  destruct k; cbn [pk_ok is_upload]; intros Hk Hx; try discriminate Hx; facts.
+  all: try (destruct data).
+  all: none_rev shape_uuid.
+Qed.
+
+Definition is_hashstate k := match k with KUploadHashState _ _ _ _ => true | _ => false end.
+Lemma algo_none k : pk_ok k = true -> is_hashstate k = false -> exec ast_get_upload_algo_offset (build k) = None.
+Proof.
+  destruct k; cbn [pk_ok is_hashstate]; intros Hk Hx; try discriminate Hx; facts.
+  all: try (destruct data).
+  all: none_rev shape_algo.
+Qed.
+
+Lemma repo_none h : valid_hex h = true -> exec ast_get_repo (build (KBlob h)) = None.
+Proof.
+  intros Hh. apply exec_none. intros t1 t2 c' Hp HD. apply shape_repo in HD. dS HD; subst; facts.
+  all: to_segs Hp; cbn [app] in Hp; scan_front Hp; finish2.
 Qed.
